@@ -269,10 +269,20 @@ def d3_inserts(chk, F):
                 if re.search(r"::(get|get_mut)$", cck) and ct.get("args") and recv_name(f, ct["args"][0]) == mapname:
                     from cfgq import option_some_edges
                     somes = option_some_edges(f, ct["dest"]["l"])
-                    # insert must not be reachable from the Some outcome
+                    # insert must not be reachable from the Some outcome, and must use the key that was looked up
                     if somes and all(b not in f.reach_from(tgt) for _, tgt in somes) and f.node_dominates(cb, b):
-                        fresh = True
+                        k_look = _key_core(arg_expr(f, ct, 1))
+                        k_ins = _key_core(arg_expr(f, t, 1))
+                        if k_look == k_ins:
+                            fresh = True
+                        else:
+                            chk.fail("C10.D3-insert", key + "|key", f.where(b),
+                                     f"`{mapkey}` is looked up with `{k_look[:60]}` but the new entry is inserted under `{k_ins[:60]}`: the next lookup misses it and the "
+                                     "stored quantity is overwritten")
+                            fresh = None
             a = allow.get((region, mapkey))
+            if fresh is None:
+                continue
             if fresh:
                 chk.ok("C10.D3-insert", key, f"{f.where(b)}: insert only on the key-absent outcome of a lookup in the same map")
             elif a is not None and a.get("finding"):
@@ -283,6 +293,19 @@ def d3_inserts(chk, F):
                 chk.fail("C10.D3-insert", key, f.where(b),
                          f"the result of the insert into `{mapkey}` in {region} is discarded and the key is not known to be absent: an existing quantity would be overwritten")
     chk.floor("C10.D3-insert", "quantity map inserts", n, 3)
+
+
+def _key_core(e):
+    """key expression without ownership conversions (to_string / to_owned / clone / borrow)"""
+    while True:
+        if e[0] == "ref":
+            e = e[1]
+        elif e[0] == "place" and all(p == "*" for p in e[2]):
+            e = e[1]
+        elif e[0] == "call" and e[2] and e[1].rsplit("::", 1)[-1] in ("to_string", "to_owned", "clone", "into", "from", "as_str", "as_ref", "borrow", "deref"):
+            e = e[2][0]
+        else:
+            return full(e)
 
 
 def d4_lineage(chk, F):
